@@ -101,6 +101,8 @@ def run_check(prop: str, tier: str, verif_seed: int, runs: int | None, shrink_en
         if prop == "C09":
             ro = readme_phase(pools, prop, verif_seed, 8 if tier == "quick" else 60)
             extra.setdefault("violations", []).extend(ro.pop("violations"))
+            for kid, cnt in ro.pop("known").items():
+                extra.setdefault("known", {})[kid] = extra.setdefault("known", {}).get(kid, 0) + cnt
             extra["harness_errors"] = extra.get("harness_errors", 0) + ro.pop("harness_errors")
             extra["x_readme_boot_order_real_processes"] = ro
         # determinism slice: re-execute a few cases, histories must be identical
@@ -188,11 +190,15 @@ def fidelity_phase(pools, prop, verif_seed, k, known):
 
 
 def readme_phase(pools, prop, verif_seed, k):
-    futs = []
+    from . import cases as _cases
+    from .check import load_known, split_known
+
+    known = load_known()
+    futs = [(0, pools.submit_custom(1, "mdpsim.cases.run_readme_order", prop, 0, _cases.KF2_PROBE_PLAN))]
     for i in range(k):
         s = P.run_seed(prop + "-readme", verif_seed, i)
         futs.append((s, pools.submit_custom(1, "mdpsim.cases.run_readme_order", prop, s)))
-    out = {"plans": 0, "agreed": 0, "skipped": 0, "real_lifetimes": 0, "value_dtypes": {}, "violations": [], "harness_errors": 0}
+    out = {"plans": 0, "agreed": 0, "skipped": 0, "real_lifetimes": 0, "value_dtypes": {}, "violations": [], "known": {}, "harness_errors": 0}
     for s, f in futs:
         try:
             r = f.result(timeout=900)
@@ -209,8 +215,12 @@ def readme_phase(pools, prop, verif_seed, k):
         out["real_lifetimes"] += r.get("lifetimes", 0)
         out["value_dtypes"][str(r.get("dtype"))] = out["value_dtypes"].get(str(r.get("dtype")), 0) + 1
         if r["verdict"] == "violation":
-            r["devices"] = 1
-            out["violations"].append((r, r["violations"]))
+            real, kn = split_known(prop, r["violations"], known)
+            for v, kk in kn:
+                out["known"][kk["id"]] = out["known"].get(kk["id"], 0) + 1
+            if real:
+                r["devices"] = 1
+                out["violations"].append((r, real))
         else:
             out["agreed"] += 1
     return out
